@@ -29,8 +29,8 @@ theorem correctPosCounter_simple {c : Cmd} (sp : SimplePos c) (ls : LoopSt) (pee
 
 /-- **a positional value**: in the ground state a token that does not look like a flag is left pending, verbatim,
 for the positional whose turn it is (after resolving what was pending before), and the counter moves on -/
-theorem loop_pos_step (c : Cmd) (wf : C01.WF c) (sp : SimplePos c) (similar : Bytes → Bytes → Bool) (hsubs : c.subs = [])
-    (v : Bytes) (a : Arg) (hv : Bytes.startsWith v [dash] = false)
+theorem loop_pos_step (c : Cmd) (wf : C01.WF c) (sp : SimplePos c) (similar : Bytes → Bytes → Bool)
+    (v : Bytes) (hnsv : NoSubTok c v) (a : Arg) (hv : Bytes.startsWith v [dash] = false)
     (ls : LoopSt) (rest : List Bytes) (p : P) (htr : ls.trailing = false) (hst : ls.st = .valuesDone)
     (hget : c.getPos ls.posCounter = some a) :
     loop c similar ls (v :: rest) p =
@@ -39,7 +39,7 @@ theorem loop_pos_step (c : Cmd) (wf : C01.WF c) (sp : SimplePos c) (similar : By
       | (q, .ok ()) =>
         loop c similar { ls with posCounter := ls.posCounter + 1, validArgFound := true } rest
           { q with pending := some { id := a.id, ident := some .index, rawVals := [v], trailingIdx := none } } := by
-  have hsc : ∀ tok vaf, possibleSubcommand c tok vaf = none := possibleSubcommand_none_of_no_subs c hsubs
+  have hsc := hnsv ls.validArgFound
   obtain ⟨hvesc, hvlong, hvshort⟩ := noDash_lex hv
   obtain ⟨hm, hk⟩ := C01.getKey_mem hget
   obtain ⟨hmul, hmv, hlast, htva, hterm⟩ := sp.single a hm (Or.inr (by rw [C01.keys_pos_index hk]; rfl))
@@ -89,7 +89,7 @@ there is a positional left to take it -/
 def okAll (c : Cmd) : List Occ → Nat → Prop
   | [], _ => True
   | .opt o :: rest, pc => o.ok c ∧ okAll c rest pc
-  | .pos v :: rest, pc => Bytes.startsWith v [dash] = false ∧ (c.getPos pc).isSome = true ∧ okAll c rest (pc + 1)
+  | .pos v :: rest, pc => NoSubTok c v ∧ Bytes.startsWith v [dash] = false ∧ (c.getPos pc).isSome = true ∧ okAll c rest (pc + 1)
 
 theorem resolvePending_some' (c : Cmd) (q : P) (a : Arg) (i : Ident) (v : Bytes) (hq : q.pending = none)
     (hfind : c.find a.id = some a) :
@@ -104,7 +104,7 @@ are single-valued, a command line mixing long options (canonical name, alias or 
 or in the next token), flags and positional values is observed by the rest of the parser as exactly the sequence of
 occurrences it spells: one `react` per occurrence, on the owner of the name or on the positional whose turn it is,
 with exactly the value's bytes, in argv order -/
-theorem loop_occurrences (c : Cmd) (wf : C01.WF c) (sp : SimplePos c) (similar : Bytes → Bytes → Bool) (hsubs : c.subs = []) :
+theorem loop_occurrences (c : Cmd) (wf : C01.WF c) (sp : SimplePos c) (similar : Bytes → Bytes → Bool) :
     ∀ (occs : List Occ) (ls : LoopSt) (p : P), okAll c occs ls.posCounter → ls.trailing = false → ls.st = .valuesDone →
       obs c (loop c similar ls (occs.flatMap Occ.spell) p) =
         match resolvePending c p with
@@ -122,13 +122,13 @@ theorem loop_occurrences (c : Cmd) (wf : C01.WF c) (sp : SimplePos c) (similar :
     rw [List.flatMap_cons]
     cases oc with
     | pos v =>
-      obtain ⟨hv, hsome, hok'⟩ := hok
+      obtain ⟨hnsv, hv, hsome, hok'⟩ := hok
       cases hget : c.getPos ls.posCounter with
       | none => rw [hget] at hsome; simp at hsome
       | some a =>
         obtain ⟨hfind, _⟩ := C01.getPos_spec wf hget
         simp only [Occ.spell, List.singleton_append]
-        rw [loop_pos_step c wf sp similar hsubs v a hv ls _ p htr hst hget]
+        rw [loop_pos_step c wf sp similar v hnsv a hv ls _ p htr hst hget]
         cases hr : resolvePending c p with
         | mk q r =>
           cases r with
@@ -144,7 +144,7 @@ theorem loop_occurrences (c : Cmd) (wf : C01.WF c) (sp : SimplePos c) (similar :
             cases hrc : reactCore c (some .index) .cmdline a [v] none q with
             | mk p1 r1 => cases r1 <;> rfl
     | opt o =>
-      obtain ⟨⟨⟨hname, hne, hutf, a, hget, htv⟩, hsep⟩, hok'⟩ := hok
+      obtain ⟨⟨⟨hns, hname, hne, hutf, a, hget, htv⟩, hsep⟩, hok'⟩ := hok
       simp only [SOcc.toL] at hname hne hutf hget htv
       obtain ⟨hfind, _⟩ := C01.findLong_spec wf hget
       simp only [Occ.spell]
@@ -165,20 +165,20 @@ theorem loop_occurrences (c : Cmd) (wf : C01.WF c) (sp : SimplePos c) (similar :
           cases hv : o.value with
           | none =>
             have hsp : o.spell = [o.toL.spell] := by simp [SOcc.spell, hv]
-            rw [hsp, List.singleton_append, loop_long_step c similar hsubs o.toL a hname hne hutf hget htv ls _ p htr hst]
+            rw [hsp, List.singleton_append, loop_long_step c similar o.toL hns a hname hne hutf hget htv ls _ p htr hst]
             unfold react; rw [hr]; rfl
           | some v =>
             cases hs : o.sep with
             | false =>
               have hsp : o.spell = [o.toL.spell] := by simp [SOcc.spell, hv, hs]
-              rw [hsp, List.singleton_append, loop_long_step c similar hsubs o.toL a hname hne hutf hget htv ls _ p htr hst]
+              rw [hsp, List.singleton_append, loop_long_step c similar o.toL hns a hname hne hutf hget htv ls _ p htr hst]
               unfold react; rw [hr]; rfl
             | true =>
-              obtain ⟨hvd, hnum, hreq, hterm⟩ := hsep hs v hv a hget
+              obtain ⟨hns1, hnsv, hvd, hnum, hreq, hterm⟩ := hsep hs v hv a hget
               have hsp : o.spell = [dash :: dash :: o.name, v] := by simp [SOcc.spell, hv, hs]
               rw [hsp]
               simp only [List.cons_append, List.nil_append]
-              rw [loop_sep_step c wf similar hsubs o.name v a hname hne hutf hget (by rw [htv, hv]; rfl) hvd hnum hreq hterm
+              rw [loop_sep_step c wf similar o.name v hns1 hnsv a hname hne hutf hget (by rw [htv, hv]; rfl) hvd hnum hreq hterm
                 ls _ p htr hst, hr]
               rfl
         | ok u =>
@@ -188,7 +188,7 @@ theorem loop_occurrences (c : Cmd) (wf : C01.WF c) (sp : SimplePos c) (similar :
               obs c (loop c similar ls (o.spell ++ rest.flatMap Occ.spell) p) =
                 obsA (runAll c (.opt o :: rest) ls.posCounter q) := by
             intro hsp
-            rw [hsp, List.singleton_append, loop_long_step c similar hsubs o.toL a hname hne hutf hget htv ls _ p htr hst]
+            rw [hsp, List.singleton_append, loop_long_step c similar o.toL hns a hname hne hutf hget htv ls _ p htr hst]
             have hreact : react c (some .long) .cmdline a o.toL.value.toList none p =
                 reactCore c (some .long) .cmdline a o.value.toList none q := by
               unfold react; rw [hr]; rfl
@@ -209,11 +209,11 @@ theorem loop_occurrences (c : Cmd) (wf : C01.WF c) (sp : SimplePos c) (similar :
             cases hs : o.sep with
             | false => exact one (by simp [SOcc.spell, hv, hs])
             | true =>
-              obtain ⟨hvd, hnum, hreq, hterm⟩ := hsep hs v hv a hget
+              obtain ⟨hns1, hnsv, hvd, hnum, hreq, hterm⟩ := hsep hs v hv a hget
               have hsp : o.spell = [dash :: dash :: o.name, v] := by simp [SOcc.spell, hv, hs]
               rw [hsp]
               simp only [List.cons_append, List.nil_append]
-              rw [loop_sep_step c wf similar hsubs o.name v a hname hne hutf hget (by rw [htv, hv]; rfl) hvd hnum hreq hterm
+              rw [loop_sep_step c wf similar o.name v hns1 hnsv a hname hne hutf hget (by rw [htv, hv]; rfl) hvd hnum hreq hterm
                 ls _ p htr hst, hr]
               simp only
               rw [ih { ls with validArgFound := true } _ hok' htr hst, resolvePending_some' c q a .long v hq hfind,
@@ -227,7 +227,8 @@ example :
       [{ id := [102], long := some [102], action := some .setTrue, numVals := some ⟨0, some 0⟩ },
        { id := [97], index := some 1 }, { id := [98], index := some 2 }] [] []
     c.subs = [] ∧ SimplePos c ∧ okAll c [.pos [120], .opt ⟨[102], none, false⟩, .pos [121]] 1 := by
-  refine ⟨rfl, ⟨rfl, ?_⟩, ⟨by decide, by decide, ⟨⟨by decide, by decide, by decide, _, rfl, by decide⟩, ?_⟩, by decide, by decide, trivial⟩⟩
+  refine ⟨rfl, ⟨rfl, ?_⟩, ⟨noSubTok_of_no_subs _ rfl _, by decide, by decide, ⟨⟨noSubTok_of_no_subs _ rfl _, by decide, by decide, by decide, _, rfl, by decide⟩, ?_⟩,
+    noSubTok_of_no_subs _ rfl _, by decide, by decide, trivial⟩⟩
   · intro a ha hp
     simp [Cmd.args] at ha
     rcases ha with rfl | rfl | rfl
